@@ -4,9 +4,9 @@ from fractions import Fraction as Fr
 
 from ..nf import Rat, C
 from ..source import Unsupported, AnchorError
-from ..xlate import Interp, Obj, ListV, DictV, Raised, RankOrder, ArgV
+from ..xlate import Interp, Obj, ListV, DictV, Raised, RankOrder, ArgV, _dtype_tag
 from .common import same, show, sig
-from .rxnfix import make_reaction
+from .rxnfix import make_reaction, get_public
 
 PD = 'pmutt.reaction.phasediagram.PhaseDiagram'
 
@@ -22,112 +22,251 @@ def rxn_obj(I, name):
     return o
 
 
+def _asarray_model(I):
+    """numpy.asarray hands back the very array it is given when no conversion is needed (an ndarray whose element type
+    is the one asked for, or none asked for); only otherwise is the result a new array. The interpreter's general model
+    always copies, which hides a caller's or an object's array being modified through the result."""
+    base = I.native['numpy.asarray']
+
+    def asarray(I_, fr, args, kwargs, n):
+        v = args[0] if args else kwargs.get('a')
+        tag = _dtype_tag(args[1] if len(args) > 1 else kwargs.get('dtype'))
+        if isinstance(v, ListV) and getattr(v, 'is_array', False) and not kwargs.get('copy') and (
+                tag is None or (getattr(v, 'dtype', None) is not None and tag == v.dtype)):
+            return v
+        return base(I_, fr, args, kwargs, n)
+    I.native['numpy.asarray'] = asarray
+
+
+def make_diagram(I, ci, nr, kind):
+    """PhaseDiagram(reactions, norm_factors) through its constructor; the factors are given as a list, as an array of
+    floats (the documented type) or left out (documented default: ones)"""
+    D = I.D
+    _asarray_model(I)
+    rx = [rxn_obj(I, 'rxn%d' % i) for i in range(nr)]
+    kw = {'reactions': ListV(rx)}
+    given = None
+    if kind == 'default':
+        vals = [C(1)] * nr
+    else:
+        given = ListV([D.sym('nf%d' % i) for i in range(nr)])
+        if kind == 'array':
+            given.is_array = True
+            given.dtype = 'float'
+        vals = list(given.items)
+        kw['norm_factors'] = given
+    pd = I.construct(ci, [], kw, name='pd')
+    return pd, rx, vals, given
+
+
+def factors_kept(run, I, ci, pd, vals, given, label, when):
+    """the documented attribute norm_factors holds the factors given (ones when none were given) in a container that
+    can hold real numbers - after construction and still after every scan; the caller's own array is left alone"""
+    owner, fn = I.repo.find_method(ci, '__init__')
+    try:
+        got = get_public(I, pd, 'norm_factors')
+    except Unsupported:
+        got = None
+    ok = isinstance(got, ListV) and len(got) == len(vals) and all(same(a, b) for a, b in zip(got.items, vals))
+    run.check(ok, 'REF.factors', 'PhaseDiagram.norm_factors', when,
+              '[%s] %s the normalisation factors of the diagram are %s, expected %s'
+              % (label, when, show(got, 120), show(ListV(vals), 120)), owner.module, fn)
+    integral = all(isinstance(v, Rat) and v.is_const() and v.const_value().denominator == 1 for v in vals)
+    run.check(not ok or integral or getattr(got, 'dtype', None) != 'int', 'TYPE.int-buffer',
+              'PhaseDiagram.norm_factors', when + ', element type',
+              '[%s] %s the normalisation factors are kept in an array of integers: factors that are not whole numbers '
+              '(surface areas) are truncated' % (label, when), owner.module, fn)
+    if given is not None:
+        run.check(all(same(a, b) for a, b in zip(given.items, vals)) and len(given) == len(vals), 'EFFECT.factors',
+                  'PhaseDiagram.norm_factors', when + ', caller\'s container',
+                  '[%s] %s the container of factors handed to the constructor has been modified: %s'
+                  % (label, when, show(given, 120)), owner.module, fn)
+
+
+def scan_1d(run, I, ci, pd, rx, vals, nx, units, xname, label, g='x'):
+    D = I.D
+    nr = len(rx)
+    xs = ListV([D.sym('%s%d' % (g, j)) for j in range(nx)])
+    T = D.sym('T' + g)
+    owner, fn = I.repo.find_method(ci, 'get_GoRT_1D')
+    run.fn(owner.qual + '.get_GoRT_1D')
+    given = {} if xname == 'T' else {'T': T}
+    out = I.call_method(pd, 'get_GoRT_1D', [], dict({'x_name': xname, 'x_values': xs, 'G_units': units}, **given))
+    if not (isinstance(out, ListV) and len(out) == 2):
+        run.fail('REF.table', 'PhaseDiagram.get_GoRT_1D', 'result', '[%s] unexpected result %s'
+                 % (label, show(out)), owner.module, fn)
+        return
+
+    G, stable = out.items
+
+    def want(i, kw):
+        v = rx[i].opaque_methods['get_delta_GoRT'](I, rx[i], [], kw) / vals[i]
+        return v * (D.sym('kb') * D.sym('Na') * D.sym('U<kJ>') * kw['T']) if units else v
+    ok = isinstance(G, ListV) and len(G) == nr and all(
+        isinstance(G.items[i], ListV) and len(G.items[i]) == nx and
+        all(same(G.items[i].items[j], want(i, dict(given, **{xname: xs.items[j]}))) for j in range(nx))
+        for i in range(nr))
+    run.check(ok, 'REF.table', 'PhaseDiagram.get_GoRT_1D', 'tabulated energies',
+              '[%s] tabulated entry is not the reaction\'s own delta G/RT divided by its normalisation factor'
+              '%s: %s' % (label, ' times RT' if units else '', show(G, 200)), owner.module, fn,
+              sample='[%s] G[i][j] == dG_i(x_j)/nf_i%s' % (label, '*R*T' if units else ''))
+    if not ok:
+        return
+    # the stable phase at grid point j minimises over the reactions at that point
+    good = isinstance(stable, ListV) and len(stable) == nx
+    if good:
+        for j in range(nx):
+            s_ = stable.items[j]
+            col = [G.items[i].items[j] for i in range(nr)]
+            if nr == 1:
+                good = good and ((isinstance(s_, Rat) and s_.iszero()) or
+                                 (isinstance(s_, ArgV) and len(s_.cands) == 1))
+            else:
+                good = good and isinstance(s_, ArgV) and s_.which == 'min' and len(s_.cands) == nr and \
+                    all(same(a, b) for a, b in zip(s_.cands, col))
+    run.check(good, 'AXIS.argmin', 'PhaseDiagram.get_GoRT_1D', 'stable phase per grid point',
+              '[%s] the arg-min must run over the %d reactions at each of the %d grid points; got %s'
+              % (label, nr, nx, show(stable, 200)), owner.module, fn)
+
+
+def scan_2d(run, I, ci, pd, rx, vals, nx, nx2, n1, n2, units2, label, g='x', h='y'):
+    D = I.D
+    nr = len(rx)
+    xs = ListV([D.sym('%s%d' % (g, j)) for j in range(nx)])
+    ys = ListV([D.sym('%s%d' % (h, j)) for j in range(nx2)])
+    owner, fn = I.repo.find_method(ci, 'get_GoRT_2D')
+    run.fn(owner.qual + '.get_GoRT_2D')
+    fixed = {} if 'T' in (n1, n2) else {'T': D.sym('Tfix' + g)}
+    out = I.call_method(pd, 'get_GoRT_2D', [], dict({'x1_name': n1, 'x1_values': xs, 'x2_name': n2,
+                                                     'x2_values': ys, 'G_units': units2}, **fixed))
+    if not (isinstance(out, ListV) and len(out) == 2):
+        run.fail('REF.table', 'PhaseDiagram.get_GoRT_2D', 'result', '[%s] unexpected result %s'
+                 % (label, show(out)), owner.module, fn)
+        return
+    G, stable = out.items
+    ok = isinstance(G, ListV) and len(G) == nr
+    if ok:
+        for i, j, k in itertools.product(range(nr), range(nx), range(nx2)):
+            kw = dict(fixed, **{n1: xs.items[j], n2: ys.items[k]})
+            w = rx[i].opaque_methods['get_delta_GoRT'](I, rx[i], [], kw) / vals[i]
+            if units2:
+                w = w * D.sym('kb') * D.sym('Na') * D.sym('U<kJ>') * kw['T']
+            try:
+                ok = ok and same(G.items[i].items[j].items[k], w)
+            except (AttributeError, IndexError):
+                ok = False
+    run.check(ok, 'REF.table', 'PhaseDiagram.get_GoRT_2D', 'tabulated energies',
+              '[%s] tabulated entry [i][j][k] is not dG_i(x1_j, x2_k)/nf_i%s' % (
+                  label, ' times R*T at that grid point' if units2 else ''), owner.module, fn)
+    if not ok:
+        return
+    good = isinstance(stable, ListV) and len(stable) == nx
+    if good:
+        for j, k in itertools.product(range(nx), range(nx2)):
+            try:
+                s_ = stable.items[j].items[k]
+            except (AttributeError, IndexError):
+                good = False
+                break
+            col = [G.items[i].items[j].items[k] for i in range(nr)]
+            if nr == 1:
+                good = good and ((isinstance(s_, Rat) and s_.iszero()) or
+                                 (isinstance(s_, ArgV) and len(s_.cands) == 1))
+            else:
+                good = good and isinstance(s_, ArgV) and s_.which == 'min' and len(s_.cands) == nr and \
+                    all(same(a, b) for a, b in zip(s_.cands, col))
+    run.check(good, 'AXIS.argmin', 'PhaseDiagram.get_GoRT_2D', 'stable phase per grid point',
+              '[%s] the arg-min must run over the reactions at each (x1, x2) grid point; got %s'
+              % (label, show(stable, 200)), owner.module, fn,
+              sample='[%s] stable[j][k] == argmin_i G[i][j][k]' % label)
+
+
 def phase_diagrams(run, repo):
     ci = repo.cls(PD)
     n = 0
     for nr, nx in ((1, 1), (2, 3), (3, 2), (3, 4)):
         for units, xname in itertools.product((None, 'kJ/mol'), ('P', 'T', 'P_B')):
             I = Interp(repo)
-            D = I.D
-            rx = [rxn_obj(I, 'rxn%d' % i) for i in range(nr)]
-            nf = ListV([D.sym('nf%d' % i) for i in range(nr)])
-            pd = Obj('pd', ci, attrs={'reactions': ListV(rx), 'norm_factors': nf})
-            xs = ListV([D.sym('x%d' % j) for j in range(nx)])
-            T = D.sym('T')
-            owner, fn = repo.find_method(ci, 'get_GoRT_1D')
-            run.fn(owner.qual + '.get_GoRT_1D')
-            given = {} if xname == 'T' else {'T': T}
-            out = I.call_method(pd, 'get_GoRT_1D', [], dict({'x_name': xname, 'x_values': xs, 'G_units': units}, **given))
+            pd, rx, vals, given = make_diagram(I, ci, nr, 'list')
             label = '1D reactions=%d grid=%d units=%s%s' % (nr, nx, units, '' if xname == 'P' else ' scan=' + xname)
             n += 1
-            if not (isinstance(out, ListV) and len(out) == 2):
-                run.fail('REF.table', 'PhaseDiagram.get_GoRT_1D', 'result', '[%s] unexpected result %s'
-                         % (label, show(out)), owner.module, fn)
+            if not isinstance(pd, Obj):
+                owner, fn = repo.find_method(ci, '__init__')
+                run.fail('REF.factors', 'PhaseDiagram.__init__', 'result', '[%s] the diagram is not built: %s'
+                         % (label, show(pd)), owner.module, fn)
                 continue
-            G, stable = out.items
-            def want(i, kw):
-                v = rx[i].opaque_methods['get_delta_GoRT'](I, rx[i], [], kw) / nf.items[i]
-                return v * (D.sym('kb') * D.sym('Na') * D.sym('U<kJ>') * kw['T']) if units else v
-            ok = isinstance(G, ListV) and len(G) == nr and all(
-                isinstance(G.items[i], ListV) and len(G.items[i]) == nx and
-                all(same(G.items[i].items[j], want(i, dict(given, **{xname: xs.items[j]}))) for j in range(nx))
-                for i in range(nr))
-            run.check(ok, 'REF.table', 'PhaseDiagram.get_GoRT_1D', 'tabulated energies',
-                      '[%s] tabulated entry is not the reaction\'s own delta G/RT divided by its normalisation factor'
-                      '%s: %s' % (label, ' times RT' if units else '', show(G, 200)), owner.module, fn,
-                      sample='[%s] G[i][j] == dG_i(x_j)/nf_i%s' % (label, '*R*T' if units else ''))
-            # the stable phase at grid point j minimises over the reactions at that point
-            good = isinstance(stable, ListV) and len(stable) == nx
-            if good:
-                for j in range(nx):
-                    s_ = stable.items[j]
-                    col = [G.items[i].items[j] for i in range(nr)]
-                    if nr == 1:
-                        good = good and ((isinstance(s_, Rat) and s_.iszero()) or
-                                         (isinstance(s_, ArgV) and len(s_.cands) == 1))
-                    else:
-                        good = good and isinstance(s_, ArgV) and s_.which == 'min' and len(s_.cands) == nr and \
-                            all(same(a, b) for a, b in zip(s_.cands, col))
-            run.check(good, 'AXIS.argmin', 'PhaseDiagram.get_GoRT_1D', 'stable phase per grid point',
-                      '[%s] the arg-min must run over the %d reactions at each of the %d grid points; got %s'
-                      % (label, nr, nx, show(stable, 200)), owner.module, fn)
+            factors_kept(run, I, ci, pd, vals, given, label, 'after construction')
+            scan_1d(run, I, ci, pd, rx, vals, nx, units, xname, label)
         # 2-D: every assignment of the scan variables (temperature first, second, or fixed), with and without units
         for nx2, (n1, n2, units2) in itertools.product((1, 2, 3), (('T', 'P', None), ('T', 'P', 'kJ/mol'),
                                                                   ('P', 'T', 'kJ/mol'), ('P', 'P_B', 'kJ/mol'),
                                                                   ('P', 'T', None))):
             I = Interp(repo)
-            D = I.D
-            rx = [rxn_obj(I, 'rxn%d' % i) for i in range(nr)]
-            nf = ListV([D.sym('nf%d' % i) for i in range(nr)])
-            pd = Obj('pd', ci, attrs={'reactions': ListV(rx), 'norm_factors': nf})
-            xs = ListV([D.sym('x%d' % j) for j in range(nx)])
-            ys = ListV([D.sym('y%d' % j) for j in range(nx2)])
-            owner, fn = repo.find_method(ci, 'get_GoRT_2D')
-            run.fn(owner.qual + '.get_GoRT_2D')
-            fixed = {} if 'T' in (n1, n2) else {'T': D.sym('Tfix')}
-            out = I.call_method(pd, 'get_GoRT_2D', [], dict({'x1_name': n1, 'x1_values': xs, 'x2_name': n2,
-                                                             'x2_values': ys, 'G_units': units2}, **fixed))
+            pd, rx, vals, given = make_diagram(I, ci, nr, 'list')
             label = '2D reactions=%d grid=%dx%d x1=%s x2=%s units=%s' % (nr, nx, nx2, n1, n2, units2)
             n += 1
-            if not (isinstance(out, ListV) and len(out) == 2):
-                run.fail('REF.table', 'PhaseDiagram.get_GoRT_2D', 'result', '[%s] unexpected result %s'
-                         % (label, show(out)), owner.module, fn)
-                continue
-            G, stable = out.items
-            ok = isinstance(G, ListV) and len(G) == nr
-            if ok:
-                for i, j, k in itertools.product(range(nr), range(nx), range(nx2)):
-                    kw = dict(fixed, **{n1: xs.items[j], n2: ys.items[k]})
-                    w = rx[i].opaque_methods['get_delta_GoRT'](I, rx[i], [], kw) / nf.items[i]
-                    if units2:
-                        w = w * D.sym('kb') * D.sym('Na') * D.sym('U<kJ>') * kw['T']
-                    try:
-                        ok = ok and same(G.items[i].items[j].items[k], w)
-                    except (AttributeError, IndexError):
-                        ok = False
-            run.check(ok, 'REF.table', 'PhaseDiagram.get_GoRT_2D', 'tabulated energies',
-                      '[%s] tabulated entry [i][j][k] is not dG_i(x1_j, x2_k)/nf_i%s' % (
-                          label, ' times R*T at that grid point' if units2 else ''), owner.module, fn)
-            good = isinstance(stable, ListV) and len(stable) == nx
-            if good:
-                for j, k in itertools.product(range(nx), range(nx2)):
-                    try:
-                        s_ = stable.items[j].items[k]
-                    except (AttributeError, IndexError):
-                        good = False
-                        break
-                    col = [G.items[i].items[j].items[k] for i in range(nr)]
-                    if nr == 1:
-                        good = good and ((isinstance(s_, Rat) and s_.iszero()) or
-                                         (isinstance(s_, ArgV) and len(s_.cands) == 1))
-                    else:
-                        good = good and isinstance(s_, ArgV) and s_.which == 'min' and len(s_.cands) == nr and \
-                            all(same(a, b) for a, b in zip(s_.cands, col))
-            run.check(good, 'AXIS.argmin', 'PhaseDiagram.get_GoRT_2D', 'stable phase per grid point',
-                      '[%s] the arg-min must run over the reactions at each (x1, x2) grid point; got %s'
-                      % (label, show(stable, 200)), owner.module, fn,
-                      sample='[%s] stable[j][k] == argmin_i G[i][j][k]' % label)
+            if not isinstance(pd, Obj):
+                continue        # reported by the one-parameter instance of this size
+            scan_2d(run, I, ci, pd, rx, vals, nx, nx2, n1, n2, units2, label)
+    # one diagram asked several times: factors given as an array of floats (the documented type), as a list, or left
+    # out (ones); scans with and without units, in one and two parameters, in both orders - every answer is decided
+    # against the factors the diagram was given, and the diagram still shows those factors afterwards
+    seqs = ((('1D', 'T', 'kJ/mol'), ('1D', 'P', None), ('2D', 'T', 'P', 'kJ/mol'), ('2D', 'P', 'T', None),
+             ('1D', 'P', 'kJ/mol')),
+            (('2D', 'T', 'P', 'kJ/mol'), ('1D', 'T', None), ('1D', 'P_B', 'kJ/mol'), ('2D', 'T', 'P', None)))
+    for nr, kind, (si, seq) in itertools.product((1, 2, 3), ('array', 'default', 'list'), enumerate(seqs)):
+        I = Interp(repo)
+        pd, rx, vals, given = make_diagram(I, ci, nr, kind)
+        base = 'reactions=%d factors=%s' % (nr, {'array': 'array of floats', 'default': 'not given',
+                                                   'list': 'list'}[kind])
+        n += 1
+        if not isinstance(pd, Obj):
+            owner, fn = repo.find_method(ci, '__init__')
+            run.fail('REF.factors', 'PhaseDiagram.__init__', 'result', '[%s] the diagram is not built: %s'
+                     % (base, show(pd)), owner.module, fn)
+            continue
+        factors_kept(run, I, ci, pd, vals, given, base, 'after construction')
+        done = []
+        for ci_, call in enumerate(seq):
+            g = 'abcde'[ci_]
+            if call[0] == '1D':
+                label = '%s request %d: 1D scan=%s units=%s%s' % (base, ci_ + 1, call[1], call[2],
+                                                                   (' after ' + '; '.join(done)) if done else '')
+                scan_1d(run, I, ci, pd, rx, vals, 2, call[2], call[1], label, g=g)
+            else:
+                label = '%s request %d: 2D x1=%s x2=%s units=%s%s' % (base, ci_ + 1, call[1], call[2], call[3],
+                                                                       (' after ' + '; '.join(done)) if done else '')
+                scan_2d(run, I, ci, pd, rx, vals, 2, 2, call[1], call[2], call[3], label, g=g, h=g.upper())
+            done.append(' '.join(str(c_) for c_ in call))
+            factors_kept(run, I, ci, pd, vals, given, base, 'after request %d (%s)' % (ci_ + 1, done[-1]))
+            n += 1
     return n
+
+
+def species_name(name, units, conds):
+    """the symbol of a species' Gibbs energy: named by the getter (G/RT without units, G with) and by everything the
+    getter was given"""
+    kw = dict(conds)
+    if units is not None:
+        kw['units'] = units
+    return '%s.%s;%s' % (name, 'get_G' if units is not None else 'get_GoRT',
+                         ','.join('%s=%s' % (k, sig(kw[k])) for k in sorted(kw)))
+
+
+def species_stub(name, attrs, extra=()):
+    """an uninterpreted species: get_GoRT(T[, extra]) and get_G(T, units[, extra]) answer with a symbol that names
+    all the arguments received"""
+    o = Obj(name, attrs=dict({'name': name}, **attrs))
+
+    def mk(meth):
+        def g(I_, obj, args, kwargs):
+            return I_.D.sym('%s.%s;%s' % (obj.name, meth, ','.join(
+                '%s=%s' % (k, sig(kwargs[k])) for k in sorted(kwargs))))
+        return g
+    for meth, ps in (('get_GoRT', ('T',)), ('get_G', ('T', 'units'))):
+        o.opaque_methods[meth] = mk(meth)
+        o.opaque_params[meth] = ps + tuple(extra)
+    return o
 
 
 def e_span(run, repo, max_states):
@@ -144,39 +283,61 @@ def e_span(run, repo, max_states):
         perms = list(itertools.permutations(range(nstates)))
         if len(perms) > 720:
             perms = perms[::len(perms) // 720 + 1]
-        for perm in perms:
-            ranks = {}
-            I = Interp(repo, order=RankOrder(ranks))
-            D = I.D
-            rxns = []
-            names = []
-            for si, ts in enumerate(shape):
-                r = Obj('step%d' % si)
-                r.attrs['reactants'] = 'R'
-                r.attrs['products'] = 'P'
-                r.attrs['transition_state'] = 'T' if ts else None
+        for pi, perm in enumerate(perms):
+            # the conditions the span is asked for: every one of them (unit, temperature, pressure, conditions given
+            # per species) must reach every state energy - the state energies are named by all they were given
+            variants = (0, 1, 2) if nstates <= 5 else (pi % 3,)
+            for variant in variants:
+                ranks = {}
+                # a state energy taken under other conditions than the ones asked for has the place of that state in
+                # the ordering (a witness in which the conditions shift all states alike), so that a lost condition
+                # is seen in the value of the span and not as an undecidable comparison
+                I = Interp(repo, order=RankOrder(ranks, fallback=lambda a, ranks=ranks: next(
+                    (rk for nm, rk in ranks.items() if a.split(';')[0] == nm.split(';')[0]), None)))
+                D = I.D
+                units = ('kJ/mol', 'eV', 'kcal/mol')[variant]
+                conds = ({'T': D.sym('T')},
+                         {'T': D.sym('T'), 'P': D.sym('P')},
+                         {'T': D.sym('T'), 'P': D.sym('P'), 'A_kwargs': DictV({'P': D.sym('pA')})})[variant]
 
-                def G(I_, obj, args, kwargs):
-                    return I_.D.sym('%s.G[%s]' % (obj.name, kwargs['state']))
-                r.opaque_methods['get_G_state'] = G
-                rxns.append(r)
-                for st in ('reactants',) + (('transition_state',) if ts else ()) + ('products',):
-                    names.append('step%d.G[%s]' % (si, st))
-            for nm, rk in zip(names, perm):
-                ranks[nm] = rk
-            seq = Obj('seq', ci, attrs={'reactions': ListV(rxns)})
-            got = I.call_method(seq, 'get_E_span', [], {'units': 'kJ/mol', 'T': D.sym('T')})
-            imax = max(range(nstates), key=lambda i: perm[i])
-            imin = min(range(nstates), key=lambda i: perm[i])
-            want = D.sym(names[imax]) - D.sym(names[imin])
-            if imax < imin:
-                want = want + D.sym(names[-1]) - D.sym(names[0])
-            n += 1
-            run.check(isinstance(got, Rat) and got.eq(want), 'REF.span', 'Reactions.get_E_span',
-                      'span', '[steps=%s ordering=%s] span is %s, expected highest minus lowest%s'
-                      % (shape, perm, show(got, 120), ' plus the overall reaction energy' if imax < imin else ''),
-                      owner.module, fn,
-                      sample='steps=%s ordering=%s -> %s' % (shape, perm, show(want, 100)) if n % 97 == 0 else None)
+                def gname(step, state, units=units, conds=conds):
+                    return '%s.G[%s;units=%s;%s]' % (step, state, units, ','.join(
+                        '%s=%s' % (k, sig(conds[k])) for k in sorted(conds)))
+                rxns = []
+                names = []
+                for si, ts in enumerate(shape):
+                    r = Obj('step%d' % si)
+                    r.attrs['reactants'] = 'R'
+                    r.attrs['products'] = 'P'
+                    r.attrs['transition_state'] = 'T' if ts else None
+
+                    def G(I_, obj, args, kwargs):
+                        kw = dict(kwargs)
+                        state = kw.pop('state', args[0] if args else None)
+                        units_ = kw.pop('units', None)
+                        return I_.D.sym('%s.G[%s;units=%s;%s]' % (obj.name, state, units_, ','.join(
+                            '%s=%s' % (k, sig(kw[k])) for k in sorted(kw))))
+                    r.opaque_methods['get_G_state'] = G
+                    rxns.append(r)
+                    for st in ('reactants',) + (('transition_state',) if ts else ()) + ('products',):
+                        names.append(gname('step%d' % si, st))
+                for nm, rk in zip(names, perm):
+                    ranks[nm] = rk
+                seq = Obj('seq', ci, attrs={'reactions': ListV(rxns)})
+                got = I.call_method(seq, 'get_E_span', [], dict({'units': units}, **conds))
+                imax = max(range(nstates), key=lambda i: perm[i])
+                imin = min(range(nstates), key=lambda i: perm[i])
+                want = D.sym(names[imax]) - D.sym(names[imin])
+                if imax < imin:
+                    want = want + D.sym(names[-1]) - D.sym(names[0])
+                n += 1
+                run.check(isinstance(got, Rat) and got.eq(want), 'REF.span', 'Reactions.get_E_span',
+                          'span', '[steps=%s ordering=%s units=%s conditions=%s] span is %s, expected highest minus '
+                          'lowest%s of the state energies at the units and conditions asked for'
+                          % (shape, perm, units, sorted(conds), show(got, 160),
+                             ' plus the overall reaction energy' if imax < imin else ''),
+                          owner.module, fn,
+                          sample='steps=%s ordering=%s -> %s' % (shape, perm, show(want, 100)) if n % 97 == 0 else None)
     # Network.get_E_span (own copy)
     m = repo.module('pmutt.reaction.network')
     nci = m.classes.get('Network')
@@ -188,35 +349,39 @@ def e_span(run, repo, max_states):
         for perm in itertools.permutations(range(ns)):
             for units in (None, 'kJ/mol'):
                 ranks = {}
-                I = Interp(repo, order=RankOrder(ranks))
+                base = {}
+                I = Interp(repo, order=RankOrder(ranks, fallback=lambda a, base=base: base.get(a.split('.')[0])))
                 D = I.D
                 nodes = DictV()
-                names = []
-                meth = 'get_G' if units else 'get_GoRT'
                 for k in range(ns):
-                    sp = Obj('sp%d' % k, attrs={'name': 'sp%d' % k})
-
-                    def g(I_, obj, args, kwargs, meth=meth):
-                        return I_.D.sym('%s.%s' % (obj.name, meth))
-                    sp.opaque_methods[meth] = g
-                    sp.opaque_params[meth] = ('T', 'units')
+                    sp = species_stub('sp%d' % k, {})
                     nodes.d['state%d' % k] = DictV({'species': ListV([sp]), 'stoich': ListV([C(1)])})
-                    names.append('sp%d.%s' % (k, meth))
-                    ranks[names[-1]] = perm[k]
+                    base['sp%d' % k] = perm[k]
                 graph = Obj('graph', attrs={'nodes': nodes})
                 net = Obj('net', nci, attrs={'graph': graph})
-                got = I.call_method(net, 'get_E_span', [], {'path': ListV(['state%d' % k for k in range(ns)]),
-                                                            'units': units, 'T': D.sym('T')})
-                imax = max(range(ns), key=lambda i: perm[i])
-                imin = min(range(ns), key=lambda i: perm[i])
-                want = D.sym(names[imax]) - D.sym(names[imin])
-                if imax < imin:
-                    want = want + D.sym(names[-1]) - D.sym(names[0])
-                n += 1
-                run.check(isinstance(got, Rat) and got.eq(want), 'REF.span', 'Network.get_E_span', 'span',
-                          '[path of %d states ordering=%s units=%s] span is %s, expected highest minus lowest%s'
-                          % (ns, perm, units, show(got, 120), ' plus last minus first' if imax < imin else ''),
-                          m, fn2)
+                # two requests to the same network: the second one under another temperature, in the other unit and
+                # with the opposite ordering of the state energies (nothing of the first answer may survive)
+                units_b = 'eV' if units is None else None
+                perm_b = tuple(ns - 1 - r_ for r_ in perm)
+                for call, (un, T_, pm) in enumerate(((units, D.sym('T'), perm), (units_b, D.sym('T2'), perm_b))):
+                    names = [species_name('sp%d' % k, un, {'T': T_}) for k in range(ns)]
+                    for k in range(ns):
+                        ranks[names[k]] = pm[k]
+                    got = I.call_method(net, 'get_E_span', [], {'path': ListV(['state%d' % k for k in range(ns)]),
+                                                                'units': un, 'T': T_})
+                    imax = max(range(ns), key=lambda i: pm[i])
+                    imin = min(range(ns), key=lambda i: pm[i])
+                    want = D.sym(names[imax]) - D.sym(names[imin])
+                    if imax < imin:
+                        want = want + D.sym(names[-1]) - D.sym(names[0])
+                    n += 1
+                    run.check(isinstance(got, Rat) and got.eq(want), 'REF.span', 'Network.get_E_span',
+                              'span' if call == 0 else 'span, second request',
+                              '[path of %d states ordering=%s units=%s T=%s%s] span is %s, expected highest minus '
+                              'lowest%s of the state energies in the unit and at the temperature asked for'
+                              % (ns, pm, un, show(T_), '' if call == 0 else ', after a request with units=%s at T'
+                                 % (units,), show(got, 160), ' plus last minus first' if imax < imin else ''),
+                              m, fn2)
     # the network built by the real constructor: every state node carries its own species and coefficients, and the
     # span over a path through a step with a transition state uses them (a coefficient taken from another state of
     # the same step changes the energies the span is computed from)
@@ -225,24 +390,18 @@ def e_span(run, repo, max_states):
     s2s = m.functions.get('state_to_set')
     if s2s is None:
         raise AnchorError('pmutt.reaction.network.state_to_set not found')
+    orderings = (('highest after lowest', {'A': 1, 'TS1': 10, 'B': 2, 'TS2': 4, 'C': 1}),
+                 ('highest before lowest', {'A': 5, 'TS1': 20, 'B': 1, 'TS2': 2, 'C': 4}))
     for units in (None, 'kJ/mol'):
-        meth = 'get_G' if units else 'get_GoRT'
-        for order_name, vals in (('highest after lowest', {'A': 1, 'TS1': 10, 'B': 2, 'TS2': 4, 'C': 1}),
-                                 ('highest before lowest', {'A': 5, 'TS1': 20, 'B': 1, 'TS2': 2, 'C': 4})):
+        for oi, (order_name, vals) in enumerate(orderings):
             ranks = {}
-            I = Interp(repo, order=RankOrder(ranks, const_ranks=True, witness=True))
+            I = Interp(repo, order=RankOrder(ranks, const_ranks=True, witness=True,
+                                             fallback=lambda a, vals=vals: vals.get(a.split('.')[0])))
             D = I.D
             sp = {}
             for nm in ('A', 'TS1', 'B', 'TS2', 'C'):
-                o = Obj(nm, attrs={'name': nm, 'elements': DictV({'X': C(1)})})
-                o.missing.add('reaction')
-
-                def g(I_, obj, args, kwargs, meth=meth):
-                    return I_.D.sym('%s.%s' % (obj.name, meth))
-                o.opaque_methods[meth] = g
-                o.opaque_params[meth] = ('T', 'units')
-                sp[nm] = o
-                ranks['%s.%s' % (nm, meth)] = vals[nm]
+                sp[nm] = species_stub(nm, {'elements': DictV({'X': C(1)})})
+                sp[nm].missing.add('reaction')
             # A = TS1 = 2 B ;  2 B = 3 TS2 = C   (transition-state coefficients differ from both neighbours)
             r1 = make_reaction(I, repo, 'pmutt.reaction.Reaction', [sp['A']], [C(1)], [sp['B']], [C(2)],
                                [sp['TS1']], [C(1)], name='r1')
@@ -256,41 +415,43 @@ def e_span(run, repo, max_states):
             states = [([sp['A']], [C(1)]), ([sp['TS1']], [C(1)]), ([sp['B']], [C(2)]), ([sp['TS2']], [C(3)]),
                       ([sp['C']], [C(1)])]
             path = ListV([I.call_function(m, s2s, [ListV(a_), ListV(list(b_))], {}) for a_, b_ in states])
-            got = I.call_method(net, 'get_E_span', [], {'path': path, 'units': units, 'T': D.sym('T')})
-            G = [D.sym('%s.%s' % (a_[0].name, meth)) * b_[0] for a_, b_ in states]
-            gv = [vals[a_[0].name] * int(b_[0].const_value()) for a_, b_ in states]
-            imax, imin = gv.index(max(gv)), gv.index(min(gv))
-            want = G[imax] - G[imin]
-            if imax < imin:
-                want = want + G[-1] - G[0]
-            n += 1
-            run.check(isinstance(got, Rat) and got.eq(want), 'REF.span', 'Network.update_network', label,
-                      'the span over the path through both steps is %s, expected %s (every state weighted with its own '
-                      'coefficients)' % (show(got, 160), show(want, 160)), m, upd[1] if upd else fn_i,
-                      sample='Network(%s): span %s' % (label, show(want, 100)))
+            # second request to the same network: other unit, other temperature, the other ordering
+            other = orderings[1 - oi]
+            for call, (un, T_, (oname, vl)) in enumerate(((units, D.sym('T'), (order_name, vals)),
+                                                          ('eV' if units is None else None, D.sym('T2'), other))):
+                for nm in sp:
+                    ranks[species_name(nm, un, {'T': T_})] = vl[nm]
+                got = I.call_method(net, 'get_E_span', [], {'path': path, 'units': un, 'T': T_})
+                G = [D.sym(species_name(a_[0].name, un, {'T': T_})) * b_[0] for a_, b_ in states]
+                gv = [vl[a_[0].name] * int(b_[0].const_value()) for a_, b_ in states]
+                imax, imin = gv.index(max(gv)), gv.index(min(gv))
+                want = G[imax] - G[imin]
+                if imax < imin:
+                    want = want + G[-1] - G[0]
+                n += 1
+                lab = label if call == 0 else '%s; then %s, units=%s at T2' % (label, oname, un)
+                run.check(isinstance(got, Rat) and got.eq(want), 'REF.span', 'Network.update_network', lab,
+                          'the span over the path through both steps is %s, expected %s (every state weighted with '
+                          'its own coefficients, in the unit and at the temperature asked for)'
+                          % (show(got, 160), show(want, 160)), m, upd[1] if upd else fn_i,
+                          sample='Network(%s): span %s' % (lab, show(want, 100)))
     # conditions given per species (<name>_kwargs): in a state of several species each one is evaluated under its own
     # conditions, and the span is taken over those energies
     for units in (None, 'kJ/mol'):
-        meth = 'get_G' if units else 'get_GoRT'
         for order_name, base in (('pair state highest', {'A': 2, 'X': 10, 'Y': 20, 'B': 1}),
                                  ('pair state lowest', {'A': 50, 'X': 2, 'Y': 4, 'B': 60})):
             ranks = {}
-            I = Interp(repo, order=RankOrder(ranks, const_ranks=True, witness=True))
+            I = Interp(repo, order=RankOrder(ranks, const_ranks=True, witness=True,
+                                             fallback=lambda a, base=base: base.get(a.split('.')[0])))
             D = I.D
             pX, pY = D.sym('pX'), D.sym('pY')
             sp = {}
 
-            def gname(nm, P, meth=meth):
-                return '%s.%s[P=%s]' % (nm, meth, show(P, 40))
+            def gname(nm, P, units=units, T_=D.sym('T')):
+                return species_name(nm, units, {'T': T_} if P is None else {'T': T_, 'P': P})
             for nm in ('A', 'X', 'Y', 'B'):
-                o = Obj(nm, attrs={'name': nm, 'elements': DictV({'Z': C(1 if nm in 'XY' else 2)})})
-                o.missing.add('reaction')
-
-                def g(I_, obj, args, kwargs, gname=gname):
-                    return I_.D.sym(gname(obj.name, kwargs.get('P')))
-                o.opaque_methods[meth] = g
-                o.opaque_params[meth] = ('T', 'units', 'P')
-                sp[nm] = o
+                sp[nm] = species_stub(nm, {'elements': DictV({'Z': C(1 if nm in 'XY' else 2)})}, extra=('P',))
+                sp[nm].missing.add('reaction')
                 for k_, P in enumerate((None, pX, pY)):
                     ranks[gname(nm, P)] = base[nm] + k_
             r1 = make_reaction(I, repo, 'pmutt.reaction.Reaction', [sp['A']], [C(1)], [sp['X'], sp['Y']], [C(1), C(1)],
@@ -342,6 +503,7 @@ def check(run, repo):
 
 P_ = 'pmutt/reaction/phasediagram.py'
 R_ = 'pmutt/reaction/__init__.py'
+N_ = 'pmutt/reaction/network.py'
 MUTANTS = [
     {'name': '2D arg-min over the second grid axis', 'expect': ('AXIS.argmin', 'get_GoRT_2D'),
      'edits': [(P_, '            stable_phases[i, :] = np.nanargmin(GoRT_row, axis=1)', '            stable_phases[i, :] = np.nanargmin(GoRT_row.transpose((1, 0)), axis=1)')]},
@@ -351,5 +513,54 @@ MUTANTS = [
      'edits': [(R_, '        if max_i < min_i:\n            E_span += states_G[-1] - states_G[0]', '        if max_i > min_i:\n            E_span += states_G[-1] - states_G[0]')]},
     {'name': 'network span uses argmin twice', 'expect': ('REF.span', 'Network.get_E_span'),
      'edits': [('pmutt/reaction/network.py', '        max_i = np.argmax(G)', '        max_i = np.argmin(G)')]},
+    # one diagram asked twice: the gas constant folded into the object's own factors (np.asarray of an array of
+    # floats is that array)
+    {'name': 'factors divided by R in place', 'expect': ('REF.table', 'get_GoRT'),
+     'edits': [(P_, '        GoRT = np.zeros(shape=(len(self.reactions), len(x_values)))\n',
+                '        GoRT = np.zeros(shape=(len(self.reactions), len(x_values)))\n'
+                '        norm_factors = np.asarray(self.norm_factors, dtype=float)\n'
+                '        if G_units is not None:\n'
+                '            norm_factors /= c.R(\'{}/K\'.format(G_units))\n'),
+               (P_, 'zip(self.reactions, self.norm_factors)):\n            for j, x in enumerate(x_values):',
+                'zip(self.reactions, norm_factors)):\n            for j, x in enumerate(x_values):'),
+               (P_, "                    GoRT[i, j] *= c.R('{}/K'.format(G_units)) * kwargs['T']",
+                "                    GoRT[i, j] *= kwargs['T']")]},
+    {'name': 'factors kept in an integer array', 'expect': ('TYPE.int-buffer', 'norm_factors'),
+     'edits': [(P_, '        if norm_factors is None:\n            self.norm_factors = np.ones(len(reactions))\n'
+                '        else:\n            self.norm_factors = norm_factors\n',
+                '        self.norm_factors = np.ones(len(reactions), dtype=int)\n'
+                '        if norm_factors is not None:\n            self.norm_factors[:] = norm_factors\n')]},
+    {'name': 'default factors are zeros', 'expect': ('REF.factors', 'norm_factors'),
+     'edits': [(P_, '            self.norm_factors = np.ones(len(reactions))',
+                '            self.norm_factors = np.zeros(len(reactions))')]},
+    {'name': 'span of a sequence takes the states at T only', 'expect': ('REF.span', 'Reactions.get_E_span'),
+     'edits': [(R_, '                    reaction.get_G_state(state=state, units=units, **kwargs))',
+                "                    reaction.get_G_state(state=state, units=units, T=kwargs['T']))")]},
+    {'name': 'network span with units ignores T', 'expect': ('REF.span', 'Network.get_E_span'),
+     'edits': [(N_, '    def get_E_span(self, path, units=None, **kwargs):',
+                '    def get_E_span(self, path, units=None, T=298.15, **kwargs):'),
+               (N_, "                                       method_name='get_GoRT',\n"
+                '                                       **kwargs))',
+                "                                       method_name='get_GoRT',\n"
+                '                                       T=T,\n'
+                '                                       **kwargs))')]},
+    {'name': 'network span remembers the state energies in the nodes', 'expect': ('REF.span', 'Network.get_E_span'),
+     'edits': [(N_, "            species = self.graph.nodes[state]['species']\n"
+                "            stoich = self.graph.nodes[state]['stoich']\n"
+                '            if units is None:',
+                '            node = self.graph.nodes[state]\n'
+                "            if 'G' in node:\n"
+                "                G.append(node['G'])\n"
+                '                continue\n'
+                "            species = node['species']\n"
+                "            stoich = node['stoich']\n"
+                '            if units is None:'),
+               (N_, '                                       units=units,\n'
+                '                                       **kwargs))\n'
+                '        # Get indices for TDI and TDTS',
+                '                                       units=units,\n'
+                '                                       **kwargs))\n'
+                "            node['G'] = G[-1]\n"
+                '        # Get indices for TDI and TDTS')]},
 ]
 EQUIV = []
